@@ -12,6 +12,7 @@ From Tx Require Deadline.Model.
 From Tx Require Filters.Loss Filters.Tbf Filters.RouterDelay.
 From Tx Require VnetAddr.Model.
 From Tx Require Ctx.Model.
+From Tx Require UdpListener.Conc.
 From Tx Require Vnet.Network.
 From Tx Require ReadDeadline.Model.
 From Tx Require UdpListener.Model.
@@ -140,6 +141,12 @@ Definition e_c17_replay (r : req) : list zs :=
   | _ => []
   end.
 
+Definition e_c12_replay (r : req) : list zs :=
+  match r with
+  | (conf :: _) :: log :: _ => UdpListener.Conc.c12_replay conf log
+  | _ => []
+  end.
+
 Definition e_net_model (r : req) : list zs :=
   match r with
   | conf :: ops :: _ => Vnet.Network.net_model_run conf ops
@@ -150,4 +157,4 @@ Extraction Language OCaml.
 Extraction "extracted.ml" Z.add Z.mul Z.div_eucl Z.of_nat Z.to_nat
   e_rd_model e_rd_spec e_rd_oracle
   e_pio_model e_pio_spec e_pio_oracle
-  e_xor_model e_c18_model e_nat_model e_nat_oracle e_dl_model e_loss_model e_c13_model e_tbf_model e_rdelay_model e_delay_oracle e_rdl_model e_c08_replay e_udp_model e_c17_replay e_net_model.
+  e_xor_model e_c18_model e_nat_model e_nat_oracle e_dl_model e_loss_model e_c13_model e_tbf_model e_rdelay_model e_delay_oracle e_rdl_model e_c08_replay e_udp_model e_c17_replay e_net_model e_c12_replay.
